@@ -362,6 +362,37 @@ pub struct Sim {
     pub post: Mutex<Vec<Box<dyn FnOnce() -> Vec<(String, String)> + Send>>>,
 }
 
+/// Turns a `Status` failure of the wrapped service into the response that carries it (what
+/// anemo's generated servers do), so that the stack can be handed to `Network::start`.
+#[derive(Clone)]
+pub struct StatusToResponse<S>(pub S);
+
+impl<S> tower::Service<Request<Bytes>> for StatusToResponse<S>
+where
+    S: tower::Service<Request<Bytes>, Response = Response<Bytes>, Error = anemo::rpc::Status>,
+    S::Future: Send + 'static,
+{
+    type Response = Response<Bytes>;
+    type Error = Infallible;
+    type Future = BoxFuture<'static, Result<Response<Bytes>, Infallible>>;
+    fn poll_ready(&mut self, cx: &mut Context<'_>) -> Poll<Result<(), Infallible>> {
+        match self.0.poll_ready(cx) {
+            Poll::Pending => Poll::Pending,
+            Poll::Ready(_) => Poll::Ready(Ok(())),
+        }
+    }
+    fn call(&mut self, req: Request<Bytes>) -> Self::Future {
+        use anemo::types::response::IntoResponse;
+        let fut = self.0.call(req);
+        Box::pin(async move {
+            Ok(match fut.await {
+                Ok(resp) => resp,
+                Err(status) => status.into_response(),
+            })
+        })
+    }
+}
+
 impl Sim {
     /// Must be called inside the execution's runtime.
     pub fn new(prefix: &[u32], default_latency_us: u64) -> Arc<Sim> {
@@ -448,12 +479,39 @@ impl Sim {
         Ok(n)
     }
 
+    /// Like `start`, with anemo-tower's per-peer in-flight limit around the service.
+    pub fn start_inflight(&self, spec: &NodeSpec, max: usize, block: bool) -> anyhow::Result<Network> {
+        use anemo_tower::inflight_limit::{InflightLimit, WaitMode};
+        let node = self.fabric.nodes();
+        use tower::ServiceExt;
+        // the limiter wants an inner service that fails with `Status`; the network wants one that
+        // never fails: adapters on both sides, as an application would write them
+        let inner = HarnessSvc::new(node, self.svc.clone()).map_err(|e: Infallible| -> anemo::rpc::Status { match e {} });
+        let limited = InflightLimit::new(inner, max, if block { WaitMode::Block } else { WaitMode::ReturnError });
+        let svc = StatusToResponse(limited);
+        let mut b = Network::bind("127.0.0.1:0")
+            .private_key(key_bytes(spec.key))
+            .server_name(spec.name.clone())
+            .config(spec.config.clone());
+        if let Some(a) = &spec.alt {
+            b = b.alternate_server_name(a.clone());
+        }
+        let n = b.start(svc)?;
+        self.labels.lock().unwrap().insert(n.peer_id(), format!("n{node}"));
+        Ok(n)
+    }
+
     /// Like `start`, with a user-provided outbound request layer that tags requests with `h-user`.
     pub fn start_with_user_layer(&self, spec: &NodeSpec) -> anyhow::Result<Network> {
         let node = self.fabric.nodes();
         let svc = HarnessSvc::new(node, self.svc.clone());
         let layer = tower::util::MapRequestLayer::new(|mut r: Request<Bytes>| {
             r.headers_mut().insert("h-user".into(), "1".into());
+            // a deadline stamped by application middleware: it sits below anemo's own outbound
+            // timeout layer, so only the serving side can enforce it
+            if let Some(v) = r.headers_mut().remove("h-stamp-timeout") {
+                r.headers_mut().insert("timeout".into(), v);
+            }
             r
         });
         let mut b = Network::bind("127.0.0.1:0")
